@@ -428,7 +428,35 @@ class MNx(Model):
         return g.is_dag()
 
     def topological_sort(self, g):
-        return iter(g.topo())
+        """A generator, as in networkx: the acyclic prefix is yielded before NetworkXUnfeasible is raised for a graph with a
+        cycle (code that wraps the iteration in try/except has already consumed those nodes)."""
+        indeg = {n: len(g._pred[n]) for n in g._node}
+        q = [n for n, d in indeg.items() if d == 0]
+        done = 0
+        while q:
+            x = q.pop(0)
+            done += 1
+            yield x
+            for v in g._succ[x]:
+                indeg[v] -= 1
+                if indeg[v] == 0:
+                    q.append(v)
+        if done != len(indeg):
+            raise ModelRaise("NetworkXUnfeasible", "Graph contains a cycle or graph changed during iteration")
+
+    def set_node_attributes(self, g, values, name=None):
+        if name is not None:
+            items = values.items() if isinstance(values, dict) else [(n, values) for n in g._node]
+            for n, v in items:
+                if n in g._node:
+                    g._node[n][name] = v
+        else:
+            for n, d in values.items():
+                if n in g._node:
+                    g._node[n].update(d)
+
+    def get_node_attributes(self, g, name, default=None):
+        return {n: a[name] for n, a in g._node.items() if name in a} if default is None else {n: a.get(name, default) for n, a in g._node.items()}
 
     def relabel_nodes(self, g, mapping, copy=True):
         if callable(mapping) and not isinstance(mapping, dict):
